@@ -1,4 +1,5 @@
 import AgModel.Proofs.PoolWiring
+import AgModel.Proofs.PoolRecover
 /-!
 # Standstill bundle replay (C18 part B): helper lemmas
 
@@ -1073,5 +1074,304 @@ theorem recv_log (e : Epoch) (certs : List Cert) (votes : List Vote) (hv : ∀ v
       rcases List.mem_append.mp hx with h | h
       · simp [stepItems, poolStep, r2] at h
       · exact g2 x h
+
+/-! ### every delivered certificate that is in bounds ends up in the log (by kind and slot) -/
+
+/-- `add_cert` in bounds: the certificate is a duplicate of a held one, or it is added (and announced) -/
+theorem addCert_inb (p : Pool) (c : Cert) (hb : p.outOfBounds c.slot = false) :
+    ((match c.kind with
+      | .notar => (p.slotState c.slot).2.cNotar.isSome
+      | .nf => (p.slotState c.slot).2.isNf c.hash
+      | .skip => (p.slotState c.slot).2.cSkip.isSome
+      | .ff => (p.slotState c.slot).2.cFf.isSome
+      | .final => (p.slotState c.slot).2.cFin.isSome) = true ∧ certsOf (p.addCert c).2.2 = []) ∨
+    certsOf (p.addCert c).2.2 = [.cert c] := by
+  unfold Pool.addCert
+  rw [if_neg (by rw [hb]; simp)]
+  dsimp only
+  cases hk : c.kind <;> dsimp only
+  · cases hd : (p.slotState c.slot).2.cNotar.isSome
+    · right; simp only [Bool.false_eq_true, if_false]; exact certsOf_addValidCert _ _
+    · left; exact ⟨rfl, rfl⟩
+  · cases hd : (p.slotState c.slot).2.isNf c.hash
+    · right; simp only [Bool.false_eq_true, if_false]; exact certsOf_addValidCert _ _
+    · left; exact ⟨rfl, rfl⟩
+  · cases hd : (p.slotState c.slot).2.cSkip.isSome
+    · right; simp only [Bool.false_eq_true, if_false]; exact certsOf_addValidCert _ _
+    · left; exact ⟨rfl, rfl⟩
+  · cases hd : (p.slotState c.slot).2.cFf.isSome
+    · right; simp only [Bool.false_eq_true, if_false]; exact certsOf_addValidCert _ _
+    · left; exact ⟨rfl, rfl⟩
+  · cases hd : (p.slotState c.slot).2.cFin.isSome
+    · right; simp only [Bool.false_eq_true, if_false]; exact certsOf_addValidCert _ _
+    · left; exact ⟨rfl, rfl⟩
+
+/-- a duplicate of a held certificate: a certificate of the same kind and slot (same block, for notar-fallback) is
+    in the log -/
+theorem dup_logged {L : List LogItem} {st : SlotState} (i : HL L st) (c : Cert) (hs : st.slot = c.slot)
+    (hd : (match c.kind with
+      | .notar => st.cNotar.isSome
+      | .nf => st.isNf c.hash
+      | .skip => st.cSkip.isSome
+      | .ff => st.cFf.isSome
+      | .final => st.cFin.isSome) = true) :
+    ∃ c', LogItem.cert c' ∈ L ∧ c'.kind = c.kind ∧ c'.slot = c.slot ∧ (c.kind = .nf → c'.hash = c.hash) := by
+  obtain ⟨⟨w1, w2, w3, w4, w5⟩, hl⟩ := i
+  have hl' : ∀ x, x ∈ st.certs → LogItem.cert x ∈ L := hl
+  simp only [mem_certs] at hl'
+  cases hk : c.kind <;> rw [hk] at hd <;> dsimp only at hd
+  · obtain ⟨c', e⟩ := Option.isSome_iff_exists.mp hd
+    exact ⟨c', hl' c' (Or.inr (Or.inr (Or.inl e))), (w1 c' e).1, (w1 c' e).2.trans hs, fun h => by cases h⟩
+  · unfold SlotState.isNf at hd
+    obtain ⟨c', hm, e⟩ := List.any_eq_true.mp hd
+    exact ⟨c', hl' c' (Or.inr (Or.inr (Or.inr (Or.inl hm)))), (w2 c' hm).1, (w2 c' hm).2.trans hs,
+      fun _ => by simpa using e⟩
+  · obtain ⟨c', e⟩ := Option.isSome_iff_exists.mp hd
+    exact ⟨c', hl' c' (Or.inr (Or.inr (Or.inr (Or.inr e)))), (w3 c' e).1, (w3 c' e).2.trans hs, fun h => by cases h⟩
+  · obtain ⟨c', e⟩ := Option.isSome_iff_exists.mp hd
+    exact ⟨c', hl' c' (Or.inr (Or.inl e)), (w4 c' e).1, (w4 c' e).2.trans hs, fun h => by cases h⟩
+  · obtain ⟨c', e⟩ := Option.isSome_iff_exists.mp hd
+    exact ⟨c', hl' c' (Or.inl e), (w5 c' e).1, (w5 c' e).2.trans hs, fun h => by cases h⟩
+
+theorem poolRun_cons (p : Pool) (op : PoolOp) (ops : List PoolOp) :
+    (poolRun p (op :: ops)).1 = (poolRun (poolStep p op).1 ops).1 := rfl
+
+/-- **Every delivered certificate that was in bounds whenever it was delivered is in the log** — itself, or (if it
+    was refused as a duplicate) a certificate of the same kind and slot (and block, for notar-fallback). -/
+theorem delivered_logged (rops : List PoolOp) (p : Pool) (L : List LogItem) (hall : AllSlots p (HL L)) (c : Cert)
+    (hc : PoolOp.cert c ∈ rops)
+    (hb : ∀ pre, pre <+: rops → (poolRun p pre).1.outOfBounds c.slot = false) :
+    ∃ c', LogItem.cert c' ∈ L ++ poolLog p rops ∧ c'.kind = c.kind ∧ c'.slot = c.slot ∧ (c.kind = .nf → c'.hash = c.hash) := by
+  induction rops generalizing p L with
+  | nil => cases hc
+  | cons op ops ih =>
+    have hall1 := hl_poolStep p op L hall
+    simp only [poolLog]
+    rw [← List.append_assoc]
+    by_cases hop : op = .cert c
+    · subst hop
+      have hb0 : p.outOfBounds c.slot = false := hb [] List.nil_prefix
+      have h0 := slotState_spec p c.slot (HL L) hall (HL.fresh L c.slot)
+      rcases addCert_inb p c hb0 with ⟨hd, _⟩ | h3
+      · obtain ⟨c', hm, g⟩ := dup_logged h0.2.1 c h0.2.2.1 hd
+        exact ⟨c', List.mem_append_left _ (List.mem_append_left _ hm), g⟩
+      · refine ⟨c, List.mem_append_left _ (List.mem_append_right _ ?_), rfl, rfl, fun _ => rfl⟩
+        simp [stepItems, poolStep, h3]
+    · have hc' : PoolOp.cert c ∈ ops := by
+        rcases List.mem_cons.mp hc with h | h
+        · exact absurd h.symm hop
+        · exact h
+      exact ih (poolStep p op).1 _ hall1 hc' (fun pre hp => by
+        have := hb (op :: pre) (by
+          obtain ⟨t, ht⟩ := hp
+          exact ⟨t, by rw [← ht]; rfl⟩)
+        rw [poolRun_cons] at this
+        exact this)
+
+/-! ### facts about the finality tracker's highest slot, and small log lemmas -/
+
+theorem addValidCerts_epoch (cs : List Cert) (q : Pool) (acc : List Event) : (q.addValidCerts cs acc).1.epoch = q.epoch := by
+  induction cs generalizing q acc with
+  | nil => rfl
+  | cons c cs ih =>
+    unfold Pool.addValidCerts
+    dsimp only
+    rw [ih, addValidCert_epoch]
+
+theorem poolRun_epoch' (ops : List PoolOp) (p : Pool) : (poolRun p ops).1.epoch = p.epoch := by
+  induction ops generalizing p with
+  | nil => rfl
+  | cons op ops ih =>
+    simp only [poolRun]
+    rw [ih]
+    cases op with
+    | vote v =>
+      show (p.addVote v).1.epoch = p.epoch
+      have h0 := slotState_spec p v.slot (fun _ => True) (fun _ _ => trivial) trivial
+      rcases addVote_shape p v with ⟨h1 | h1, _⟩ | ⟨_, h2, _⟩
+      · rw [h1]
+      · rw [h1]; exact h0.2.2.2.1
+      · rw [h2, addValidCerts_epoch]
+        unfold addVoteQ
+        rw [(putSlot_spec _ _ (fun _ => True) (fun _ _ => trivial) trivial).2.1]; exact h0.2.2.2.1
+    | cert c => exact addCert_epoch p c
+    | block b par => exact addBlock_epoch p b par
+
+theorem poolLog_append (p : Pool) (a b : List PoolOp) :
+    poolLog p (a ++ b) = poolLog p a ++ poolLog (poolRun p a).1 b := by
+  induction a generalizing p with
+  | nil => rfl
+  | cons op a ih =>
+    simp only [List.cons_append, poolLog, poolRun]
+    rw [ih, List.append_assoc]
+
+/-- every finalized block of a safe history is at or below `highest_finalized_slot` -/
+theorem final_le_highest {H : List Finality.Op} (sf : Finality.Safe H) {t : Finality.Tracker}
+    {evs : List Finality.Event} (ri : Finality.RunInv H t evs) {b : Nat × Nat} (hb : Finality.Final H b) :
+    b.1 ≤ t.highest := by
+  by_cases hw : t.first ≤ b.1
+  · exact ri.inv.dec_le _ (Finality.dec_of_finalHash (ri.rel.final_complete sf (Finality.Sub.refl _) hb hw))
+  · have := ri.inv.first_le; omega
+
+/-- a finalized block in the highest finalized slot is directly finalized -/
+theorem final_top_direct {H : List Finality.Op} (sf : Finality.Safe H) {b : Nat × Nat} (hb : Finality.Final H b)
+    (htop : ∀ c, Finality.Final H c → c.1 ≤ b.1) : Finality.Direct H b := by
+  cases hb with
+  | direct d => exact d
+  | @step c _ hc hl =>
+    have := sf.link_lt c b hl
+    have := htop c hc
+    omega
+
+theorem mem_finOps_ff_inv {L : List LogItem} {b : Nat × Nat} (h : Finality.Op.fastFinal b ∈ finOps L) :
+    ∃ c, LogItem.cert c ∈ L ∧ c.kind = .ff ∧ (c.slot, c.hash) = b := by
+  unfold finOps at h
+  obtain ⟨it, hit, hop⟩ := List.mem_flatMap.mp h
+  cases it with
+  | block x y => simp [LogItem.finOp] at hop
+  | cert c =>
+    cases hk : c.kind <;> simp [LogItem.finOp, hk] at hop
+    exact ⟨c, hit, hk, by rw [hop]⟩
+
+theorem mem_finOps_notar_inv {L : List LogItem} {b : Nat × Nat} (h : Finality.Op.notar b ∈ finOps L) :
+    ∃ c, LogItem.cert c ∈ L ∧ c.kind = .notar ∧ (c.slot, c.hash) = b := by
+  unfold finOps at h
+  obtain ⟨it, hit, hop⟩ := List.mem_flatMap.mp h
+  cases it with
+  | block x y => simp [LogItem.finOp] at hop
+  | cert c =>
+    cases hk : c.kind <;> simp [LogItem.finOp, hk] at hop
+    exact ⟨c, hit, hk, by rw [hop]⟩
+
+theorem mem_finOps_final_inv {L : List LogItem} {s : Nat} (h : Finality.Op.final s ∈ finOps L) :
+    ∃ c, LogItem.cert c ∈ L ∧ c.kind = .final ∧ c.slot = s := by
+  unfold finOps at h
+  obtain ⟨it, hit, hop⟩ := List.mem_flatMap.mp h
+  cases it with
+  | block x y => simp [LogItem.finOp] at hop
+  | cert c =>
+    cases hk : c.kind <;> simp [LogItem.finOp, hk] at hop
+    exact ⟨c, hit, hk, hop.symm⟩
+
+/-- the run invariant of the finality tracker inside a wired pool -/
+theorem wired_runInv {p : Pool} {L : List LogItem} (w : Wired p.trk L) (sf : Finality.Safe (finOps L)) :
+    ∃ fevs, Finality.RunInv (finOps L) p.fin fevs := by
+  obtain ⟨fevs, hrun, _⟩ := trace_inv L sf
+  have hfin : finState L = p.fin := w.fin
+  rw [hfin] at hrun
+  exact ⟨fevs, Finality.runInv_of_run sf hrun⟩
+
+/-! ### the replay setting -/
+
+/-- sender `ops` (consistent history, finalized slot below `2·SLOTS_PER_EPOCH`, own stake below the quorum
+    threshold), its bundle `(certs, votes)`, receiver operations `rops`: the bundle in any order, every certificate
+    at least once -/
+structure Replay (e : Epoch) (ops : List PoolOp) (certs : List Cert) (votes : List Vote) (rops : List PoolOp) : Prop where
+  cons : Consistent (poolLog { epoch := e } ops)
+  far : (poolRun { epoch := e } ops).1.fin.highest < 2 * Gen.SLOTS_PER_EPOCH
+  own : e.isQuorum (e.stake e.own) = false
+  bundle : (poolRun { epoch := e } ops).1.recover = [.standstill ((poolRun { epoch := e } ops).1.fin.highest + 1) certs votes]
+  fed : FedBy certs votes rops
+  all : ∀ c ∈ certs, PoolOp.cert c ∈ rops
+
+namespace Replay
+variable {e : Epoch} {ops : List PoolOp} {certs : List Cert} {votes : List Vote} {rops : List PoolOp}
+
+theorem sender_held (_ : Replay e ops certs votes rops) (hc : Consistent (poolLog { epoch := e } ops)) :
+    Held (poolRun { epoch := e } ops).1 (poolLog { epoch := e } ops) := by
+  have := held_poolRun ops { epoch := e } [] (Held.init e) (by simpa using hc)
+  simpa using this
+
+theorem sender_hl (_ : Replay e ops certs votes rops) :
+    AllSlots (poolRun { epoch := e } ops).1 (HL (poolLog { epoch := e } ops)) := by
+  have := hl_poolRun ops { epoch := e } [] (fun st h => by simp at h)
+  simpa using this
+
+/-- every bundled certificate is in the sender's log -/
+theorem certs_logged (S : Replay e ops certs votes rops) : ∀ c ∈ certs, LogItem.cert c ∈ poolLog { epoch := e } ops := by
+  intro c hc
+  have hst : ∃ st ∈ (poolRun { epoch := e } ops).1.slots, c ∈ st.certs := by
+    rcases ((recover_contents _ certs votes S.bundle).1 c).mp hc with h1 | ⟨st, hm, _, hcs⟩
+    · exact getFinalCerts_held _ _ c h1
+    · exact ⟨st, hm, hcs⟩
+  obtain ⟨st, hm, hcs⟩ := hst
+  exact (S.sender_hl st hm).2 c hcs
+
+theorem votes_own (S : Replay e ops certs votes rops) : ∀ v ∈ votes, v.signer = e.own := by
+  intro v hv
+  have := (recover_votes_own _ certs votes S.bundle v hv).1
+  rw [poolRun_epoch'] at this
+  exact this
+
+theorem fed_prefix (S : Replay e ops certs votes rops) {pre : List PoolOp} (hp : pre <+: rops) : FedBy certs votes pre :=
+  fun op ho => S.fed op (List.IsPrefix.mem ho hp)
+
+/-- the receiver after any prefix of its operations: its log is a sub-log of the sender's, hence consistent; it is
+    wired and holds what it logged -/
+theorem recv_prefix (S : Replay e ops certs votes rops) {pre : List PoolOp} (hp : pre <+: rops) :
+    (∀ x ∈ poolLog { epoch := e } pre, ∃ c ∈ certs, x = .cert c) ∧
+    Consistent (poolLog { epoch := e } pre) ∧
+    Held (poolRun { epoch := e } pre).1 (poolLog { epoch := e } pre) ∧
+    AllSlots (poolRun { epoch := e } pre).1 (HL (poolLog { epoch := e } pre)) := by
+  obtain ⟨_, hlog⟩ := recv_log e certs votes S.votes_own S.own pre (S.fed_prefix hp) { epoch := e } (RecvInv.init e)
+  have hsub : ∀ x ∈ poolLog { epoch := e } pre, x ∈ poolLog { epoch := e } ops := by
+    intro x hx
+    obtain ⟨c, hc, rfl⟩ := hlog x hx
+    exact S.certs_logged c hc
+  have hcons : Consistent (poolLog { epoch := e } pre) := S.cons.sub hsub
+  refine ⟨hlog, hcons, ?_, ?_⟩
+  · have := held_poolRun pre { epoch := e } [] (Held.init e) (by simpa using hcons)
+    simpa using this
+  · have := hl_poolRun pre { epoch := e } [] (fun st h => by simp at h)
+    simpa using this
+
+/-- the receiver never finalizes beyond the sender's finalized slot -/
+theorem recv_highest_le (S : Replay e ops certs votes rops) {pre : List PoolOp} (hp : pre <+: rops) :
+    (poolRun { epoch := e } pre).1.fin.highest ≤ (poolRun { epoch := e } ops).1.fin.highest := by
+  obtain ⟨hlog, hcons, hheld, _⟩ := S.recv_prefix hp
+  obtain ⟨fq, rq⟩ := wired_runInv hheld.wired hcons.safe
+  obtain ⟨fp, rp⟩ := wired_runInv (S.sender_held S.cons).wired S.cons.safe
+  rcases rq.hiAtt with h0 | ⟨b, hb, hbe⟩
+  · omega
+  · rw [← hbe]
+    have hsub : Finality.Sub (finOps (poolLog { epoch := e } pre)) (finOps (poolLog { epoch := e } ops)) :=
+      finOps_sub (fun x hx => by obtain ⟨c, hc, rfl⟩ := hlog x hx; exact S.certs_logged c hc)
+    exact final_le_highest S.cons.safe rp (hb.mono hsub)
+
+/-- a bundled certificate for a slot between the finalized slot and `2·SLOTS_PER_EPOCH` is in bounds whenever it is
+    delivered to the receiver -/
+theorem recv_inb (S : Replay e ops certs votes rops) (s : Nat) (h1 : (poolRun { epoch := e } ops).1.fin.highest ≤ s)
+    (h2 : s < 2 * Gen.SLOTS_PER_EPOCH) {pre : List PoolOp} (hp : pre <+: rops) :
+    (poolRun { epoch := e } pre).1.outOfBounds s = false := by
+  have hle := S.recv_highest_le hp
+  obtain ⟨_, hcons, hheld, _⟩ := S.recv_prefix hp
+  obtain ⟨fq, rq⟩ := wired_runInv hheld.wired hcons.safe
+  have := rq.inv.first_le
+  unfold Pool.outOfBounds
+  simp only [Bool.or_eq_false_iff, decide_eq_false_iff_not]
+  constructor <;> omega
+
+/-- **every bundled certificate for such a slot reaches the receiver's log**: a certificate of the same kind and
+    slot, and of the same block where the kind names one -/
+theorem delivered (S : Replay e ops certs votes rops) (c : Cert) (hc : c ∈ certs)
+    (h1 : (poolRun { epoch := e } ops).1.fin.highest ≤ c.slot) (h2 : c.slot < 2 * Gen.SLOTS_PER_EPOCH) :
+    ∃ c', LogItem.cert c' ∈ poolLog { epoch := e } rops ∧ c'.kind = c.kind ∧ c'.slot = c.slot ∧
+      (c.kind = .notar ∨ c.kind = .nf ∨ c.kind = .ff → c'.hash = c.hash) := by
+  obtain ⟨c', hm, hk, hs, hh⟩ := delivered_logged rops { epoch := e } [] (fun st h => by simp at h) c (S.all c hc)
+    (fun pre hp => S.recv_inb c.slot h1 h2 hp)
+  simp only [List.nil_append] at hm
+  refine ⟨c', hm, hk, hs, fun hkind => ?_⟩
+  rcases hkind with k | k | k
+  · obtain ⟨hlog, _⟩ := S.recv_prefix (List.prefix_refl rops)
+    obtain ⟨c'', hc'', e''⟩ := hlog _ hm
+    cases e''
+    exact logged_agree S.cons.safe (S.certs_logged c hc) (S.certs_logged c' hc'') hs hk (Or.inl k)
+  · exact hh k
+  · obtain ⟨hlog, _⟩ := S.recv_prefix (List.prefix_refl rops)
+    obtain ⟨c'', hc'', e''⟩ := hlog _ hm
+    cases e''
+    exact logged_agree S.cons.safe (S.certs_logged c hc) (S.certs_logged c' hc'') hs hk (Or.inr k)
+
+end Replay
 
 end AgModel.Pool
